@@ -512,6 +512,7 @@ func (q *TaskQueue) Start() {
 			}
 
 			q.debugf("queue %s: tasks after handle %s", q.Name, q.String())
+			verifhook.Point("q.loop.end", q.Name)
 		}
 	}()
 	q.started = true
